@@ -277,6 +277,12 @@ class Arr:
         return self.a.shape[0]
 
     def __iter__(self):
+        if self.kind == "numpy" and self.a.ndim == 1:
+            # numpy yields scalars (not 0-d arrays) when a 1-D array is iterated; a scalar used as an index is basic
+            # indexing (a view), a 0-d array is not
+            for i in range(self.a.shape[0]):
+                yield self.a[i]
+            return
         for i in range(self.a.shape[0]):
             yield self[i]
 
@@ -322,6 +328,9 @@ class Arr:
             key = (key,)
         out = []
         for k in key:
+            if isinstance(k, Arr) and k.kind == "torch" and k.a.ndim == 0 and not has_sym(k.a) and not isinstance(k.a[()], (bool, np.bool_)):
+                out.append(int(k.a[()]))          # torch treats a 0-d integer tensor index like a Python int (basic indexing, a view)
+                continue
             if isinstance(k, Arr):
                 ka = k.a
                 if has_sym(ka):
